@@ -368,6 +368,7 @@ def run(coro_fn: Callable[[VLoop], Any], net: Optional[Net] = None, tick: float 
                 loop.run_until_complete(asyncio.gather(*pending, return_exceptions=True))
             except VirtualDeadlock:
                 pass
+        _raise_harness_callback_errors(loop)
         return result, loop
     finally:
         try:
@@ -375,6 +376,25 @@ def run(coro_fn: Callable[[VLoop], Any], net: Optional[Net] = None, tick: float 
             loop.close()
         finally:
             CURRENT = None
+
+
+class HarnessCallbackError(RuntimeError):
+    """An exception escaped a callback of the harness itself (model device, simulated network): a harness defect that
+    must not pass silently (the event loop would only log it)."""
+
+
+def _raise_harness_callback_errors(loop) -> None:
+    import os
+    import traceback
+    here = os.path.dirname(os.path.abspath(__file__)) + os.sep
+    for ctx in loop.callback_exceptions:
+        exc = ctx.get("exception")
+        if exc is None or isinstance(exc, (asyncio.CancelledError, VirtualDeadlock)):
+            continue
+        frames = traceback.extract_tb(exc.__traceback__)
+        if frames and os.path.abspath(frames[-1].filename).startswith(here):
+            # raised by harness code (innermost frame is ours)
+            raise HarnessCallbackError(f"{ctx.get('message')}: {exc!r} at {frames[-1].filename}:{frames[-1].lineno}") from exc
 
 
 _INSTALLED = False
